@@ -1372,8 +1372,9 @@ def calibrate_double_ended_solver(  # noqa: MC0001
                 ds_tix.rst**-2 * rst_var_tix + ds_tix.rast**-2 * rast_var_tix
             ).values.ravel()
         )
+        # y_eq3 = (I_B - I_F) / 2, so its variance is a quarter of the summed variances
         w_eq3 = (
-            1
+            4
             / (
                 ds_mnc.st**-2 * st_var_mnc
                 + ds_mnc.ast**-2 * ast_var_mnc
